@@ -73,7 +73,19 @@ def accessorOp (j : Json) : Except String Res := do
   let L ← libsOf j
   let present := (Obj.lookup kvs key).isSome
   let impl := (j.getObjVal? "impl").toOption.getD Json.null
-  match acc with
+  -- predicates on the implementation's output (string-valued accessors): a string that is
+  -- empty once sanitised is reported absent; a returned string is sanitised and non-empty
+  let emptyAfterScrub : Bool := match Obj.lookup kvs key with
+    | some (.str s) => (Ansi.scrub s).isEmpty
+    | _ => false
+  let absentOk : Bool := !emptyAfterScrub ||
+    (impl.getObjVal? "err").toOption == some (Json.str "absent") ||
+    -- GetMarkup falls back to the default media type: only its content key decides "absent"
+    acc == "any" || acc == "list" || acc == "object" || acc == "number"
+  let stringOk : Bool := match acc, impl.getObjVal? "ok" with
+    | "string", .ok (Json.str s) => !s.isEmpty && s.toList.all fun c => c = '\n' || !Uni.isControl c
+    | _, _ => true
+  let r ← (match acc with
   | "any" => pure { model := resJson ofJVal (Obj.getAny kvs key), nontrivial := present }
   | "string" => pure { model := resJson js (Obj.getString kvs key), nontrivial := present }
   | "number" =>
@@ -93,7 +105,8 @@ def accessorOp (j : Json) : Except String Res := do
            nontrivial := present }
   | "markup" =>
     pure { model := resJson (fun _ => Json.bool true) (Obj.getMarkupKind kvs key key2), nontrivial := present }
-  | _ => throw "bad accessor"
+  | _ => throw "bad accessor" : Except String Res)
+  pure { r with preds := r.preds ++ [("empty_string_is_absent", absentOk), ("string_sanitised_nonempty", stringOk)] }
 
 end Ops
 
@@ -150,10 +163,26 @@ def configOp (j : Json) : Except String Res := do
       highlight := rawStr raw "highlight" d.highlight, code := rawStr raw "code_background" d.code,
       context := rawInt raw "preload_amount" d.context, timeout := rawInt raw "timeout_seconds" d.timeout,
       cacheSize := rawInt raw "cache_size" d.cacheSize }
+  -- predicate on the implementation's output: an accepted configuration is safe to run with
+  let impl := (j.getObjVal? "impl").toOption.getD Json.null
+  let safeOk : Bool := match impl.getObjVal? "ok" with
+    | .ok c =>
+      let n (k : String) : Int := ((c.getObjVal? k).toOption.bind (·.getInt?.toOption)).getD (-1)
+      let hookLen := match c.getObjVal? "hook" with | .ok (Json.arr a) => a.size | _ => 0
+      let colourOk (k : String) : Bool := match c.getObjVal? k with
+        | .ok (Json.str out) =>
+          let parts := out.splitOn ";"
+          parts.length == 3 && parts.all fun q => match q.toNat? with
+            | some v => v ≤ 255 && toString v == q
+            | none => false
+        | _ => false
+      hookLen ≥ 1 && n "cache" ≥ 1 && n "context" ≥ 0 && n "timeout" ≥ 0 &&
+        colourOk "primary" && colourOk "error" && colourOk "highlight" && colourOk "code"
+    | _ => true
   match Config.postprocess r with
-  | .error dg => pure { model := Json.mkObj [("reject", Json.str (diagKey dg))] }
+  | .error dg => pure { model := Json.mkObj [("reject", Json.str (diagKey dg))], preds := [("accepted_config_is_safe", safeOk)] }
   | .ok p =>
-    pure { model := Json.mkObj [("ok", Json.mkObj [
+    pure { preds := [("accepted_config_is_safe", safeOk)], model := Json.mkObj [("ok", Json.mkObj [
       ("hook", jsl p.hook), ("primary", js p.colors.primary), ("error", js p.colors.error),
       ("highlight", js p.colors.highlight), ("code", js p.colors.code),
       ("context", Json.num p.context), ("timeout", Json.num p.timeoutSeconds), ("cache", Json.num p.cacheSize)])] }
